@@ -8,7 +8,12 @@ VERIF = os.path.dirname(os.path.dirname(os.path.abspath(__file__)))
 def first_para(md, key):
     return md
 
-for prop in sys.argv[1:]:
+OFFSET = 0
+args = sys.argv[1:]
+if args and args[0] == '--offset':
+    OFFSET = int(args[1])
+    args = args[2:]
+for prop in args:
     wt = "/tmp/wt-%s" % prop
     for n in (1, 2, 3):
         diff = os.path.join(wt, "out", "mut%d.diff" % n)
@@ -16,7 +21,7 @@ for prop in sys.argv[1:]:
         md = os.path.join(wt, "out", "mut%d.md" % n)
         if not (os.path.exists(diff) and os.path.exists(demo)):
             continue
-        sid = "%s-m%d" % (prop, n)
+        sid = "%s-m%d" % (prop, n + OFFSET)
         res = seedtest.verify(wt, diff, demo)
         ok = res.get("applies") and res.get("suite_passes_with_change") and res.get("demo_fails_with_change") and res.get("demo_passes_without_change")
         print(sid, "VERIFIED" if ok else "REJECTED", {k: v for k, v in res.items() if isinstance(v, bool)})
